@@ -34,6 +34,10 @@ let rec repeat n f = if n <= 0 then [] else let x = f () in x :: repeat (n - 1) 
 
 exception Resolve_failed
 
+(* a time of the instance: seconds relative to the base date as computed by the extracted Cal.rel_seconds (gen/timeconv.py
+   asks this driver); TPANIC where Cal.parse_datetime = Panic, i.e. the loader's DateTime::new panics *)
+let next_time st = if peek st = "TPANIC" then (ignore (next st); raise Resolve_failed) else next_z st
+
 (* the raw format: references are identifiers; resolved by the extracted RawLoad.resolve *)
 let read_raw_instance (st : stream) : instance * z list =
   let nlist f = let n = next_int st in repeat n f in
@@ -56,12 +60,12 @@ let read_raw_instance (st : stream) : instance * z list =
   let deps = nlist (fun () ->
     let r = next_z st in
     let segs = nlist (fun () ->
-      let g = next_z st in let dp = next_z st in let p = next_z st in let s = next_z st in
+      let g = next_z st in let dp = next_time st in let p = next_z st in let s = next_z st in
       { rds_rseg = g; rds_dep = dp; rds_pass = p; rds_seated = s }) in
     { rdp_route = r; rdp_segs = segs }) in
   let nsl = next_int st in
   let slots = if nsl < 0 then None else Some (repeat nsl (fun () ->
-    let l = next_z st in let s = next_z st in let e = next_z st in let t = next_z st in
+    let l = next_z st in let s = next_time st in let e = next_time st in let t = next_z st in
     { rsl_loc = l; rsl_start = s; rsl_end = e; rsl_tracks = t })) in
   let idx = nlist (fun () -> next_z st) in
   let dur = nlist (fun () -> nlist (fun () -> next_z st)) in
